@@ -275,6 +275,15 @@ fn main() {
     let list = |v: &Value| -> Option<Vec<webauthn::PublicKeyCredentialDescriptor>> {
         v.as_array().map(|l| l.iter().map(|x| descriptor(&vec![x.as_u64().unwrap_or(0) as u8; 16])).collect())
     };
+    let unknown_list = || -> Option<Vec<webauthn::PublicKeyCredentialDescriptor>> {
+        sc["request"]["allow_list_unknown"].as_bool().unwrap_or(false).then(|| {
+            vec![webauthn::PublicKeyCredentialDescriptor {
+                ty: webauthn::PublicKeyCredentialType::Unknown,
+                id: vec![9u8; 16].into(),
+                transports: None,
+            }]
+        })
+    };
     let max_polls = sc["max_polls"].as_u64().unwrap_or(1000);
     let mut polls = 0u64;
     let op = sc["op"].as_str().unwrap_or("get_assertion").to_string();
@@ -285,7 +294,7 @@ fn main() {
                 let req = get_assertion::Request {
                     rp_id: rp.clone(),
                     client_data_hash: vec![7u8; 32].into(),
-                    allow_list: list(&sc["request"]["allow_list"]),
+                    allow_list: unknown_list().or_else(|| list(&sc["request"]["allow_list"])),
                     extensions: sc["request"]["prf_eval"].as_bool().unwrap_or(false).then(|| get_assertion::ExtensionInputs {
                         hmac_secret: None,
                         prf: Some(prf_inputs()),
